@@ -260,6 +260,15 @@ theorem remove_rejected_iff (m : Metric V) (vs : List PyVal) :
   · have hne : m.decl.labelnames ≠ [] := by simpa using h1
     by_cases h2 : vs.length = m.decl.labelnames.length <;> simp [h1, h2, hne]
 
+/-- **A caller-side mutation is a frame.**  When the caller goes on mutating the dict it passed to `info()`, or the
+`states` / `buckets` sequence it passed to a constructor, nothing the registry exposes changes: the library stored
+copies (T1: `infoCopiesDict`, `enumCopiesStates`, `histogramCopiesBuckets`; the `decide`s fail on a tree that stores
+the caller's object itself, where the model has no answer — `afterCallerMutation = none`). -/
+theorem caller_mutation_is_frame (r : Reg V) (o : CallerObject) :
+    afterCallerMutation r o = some r ∧ (afterCallerMutation r o).map collect = some (collect r) := by
+  have h : copiedOnEntry o = true := by cases o <;> decide
+  simp [afterCallerMutation, h]
+
 /-! ## 3. label addressing, remove, clear -/
 
 /-- **Positional, keyword (in any permutation) and non-string values that stringify equally address one child**: the
